@@ -270,7 +270,7 @@ def gen_base(prop, seed, tier):
     scn = {'prop': prop, 'engine': 'pipeline', 'seed': seed, 'kind': kind, 'mode': mode, 'm': m, 'sets': sets, 'frame': frame, 'chain': chain,
            'words': words, 'rule': rule, 'precision': r.choice(['float32', 'float64']),
            'tdtype': r.choice(['uint8', 'uint8', 'int16', 'float32'] if thorough else ['uint8']),
-           'amp': r.choice([3, 7, 15]), 'table_seed': rng.H(seed, 'table'), 'nguess': r.choice([2, 3, 4]),
+           'amp': r.choice([3, 7, 15, 255]), 'table_seed': rng.H(seed, 'table'), 'nguess': r.choice([2, 3, 4]),
            'model': ['monobit', r.randint(0, 7)] if kind == 'dpa' else 'hw',
            'discriminant': r.choice(['maxabs', 'nanmax', 'abssum', 'nansum', 'opposite_min']),
            'classes': None, 'step': None}
@@ -305,7 +305,9 @@ def generate(prop, seed, tier):
     if prop == 'C08' and rng.stream(seed, 'tplsel').random() < 0.15:
         return generate_c08_template(seed, tier)
     scn, r = gen_base(prop, seed, tier)
-    if prop == 'C08':
+    if prop == 'C08' or (prop == 'C02' and scn['mode'] == 'attack' and rng.stream(seed, 'c02step').random() < 0.3):
+        # C02 ranges over "any attack": an attack configured with a convergence step is one of them (the step changes the derived batch size
+        # and adds intermediate computes); its final results must still be the one-shot statistic
         b = scn['rule'] if isinstance(scn['rule'], int) else 10
         N = sum(scn['sets'])
         scn['step'] = _w(r, [(1, 1), (max(1, b - 1), 1), (b, 1.5), (b + 1, 1), (2 * b, 1), (r.randint(1, max(1, N)), 3), (N + 3, 0.7), (max(1, N), 0.7),
